@@ -448,6 +448,7 @@ class Frame(object):
         self.params = params or {}
         self.this = this
         self.derived = derived      # name of the derived attribute being computed
+        self.derived_set = False    # the action has assigned self.<derived> (then reading it delivers the value assigned last)
         self.result = None
         self.selected = None
 
@@ -575,6 +576,7 @@ class Machine(object):
                 if lhs[1][0] == 'self' and fr.derived == lhs[2]:
                     self.expr(lhs[1], fr)
                     fr.result = value
+                    fr.derived_set = True
                     return
                 row = self.live(self.expr(lhs[1], fr))
                 a = self.s.attr(row.cls, lhs[2])
@@ -737,7 +739,9 @@ class Machine(object):
                 return v
             if a.kind == 'derived':
                 if e[1][0] == 'self' and fr.derived == a.name:
-                    raise OutOfDomain('derived attribute read inside its own action')
+                    if not fr.derived_set:
+                        raise OutOfDomain('derived attribute read inside its own action before it is assigned')
+                    return fr.result        # an attribute that was assigned reads as the value assigned last
                 self.events.add('derived-read')
                 return self.run_body(a.body, None, row, a.name)
             return row.vals[a.name]
